@@ -1,0 +1,97 @@
+//! Verification hooks, compiled only with the `verif-hooks` cargo feature
+//! (off by default; nothing here exists in a normal build).
+//!
+//! An append-only, thread-safe event log of the encoder's parallel tasks plus
+//! an optional seeded delay between tasks, used by an external harness to
+//! observe (and shake) the interleavings of the `rayon` code paths.
+
+use std::sync::Mutex;
+use std::sync::atomic::{AtomicU64, Ordering};
+
+/// One logged event
+#[derive(Debug, Clone, Copy, PartialEq, Eq)]
+pub struct Event {
+    /// position in the global log order (taken under the log's lock)
+    pub seq: u64,
+    /// task kind
+    pub kind: &'static str,
+    /// `true` for task begin, `false` for task end
+    pub begin: bool,
+    /// small index identifying the executing thread (first-seen order)
+    pub thread: usize,
+}
+
+struct Log {
+    events: Vec<Event>,
+    threads: Vec<std::thread::ThreadId>,
+}
+
+static LOG: Mutex<Log> = Mutex::new(Log {
+    events: Vec::new(),
+    threads: Vec::new(),
+});
+
+static PERTURB_SEED: AtomicU64 = AtomicU64::new(0);
+static PERTURB_MAX_MICROS: AtomicU64 = AtomicU64::new(0);
+
+fn push(kind: &'static str, begin: bool) -> u64 {
+    let id = std::thread::current().id();
+    let mut log = LOG.lock().unwrap_or_else(|e| e.into_inner());
+    let thread = match log.threads.iter().position(|t| *t == id) {
+        Some(i) => i,
+        None => {
+            log.threads.push(id);
+            log.threads.len() - 1
+        }
+    };
+    let seq = log.events.len() as u64;
+    log.events.push(Event {
+        seq,
+        kind,
+        begin,
+        thread,
+    });
+    seq
+}
+
+/// Guard logging the begin and end of one task
+pub struct Task {
+    kind: &'static str,
+}
+
+/// Logs the beginning of a task (and its end when the guard drops);
+/// sleeps a seed-derived amount first when perturbation is enabled
+pub fn task(kind: &'static str) -> Task {
+    let seq = push(kind, true);
+    let max = PERTURB_MAX_MICROS.load(Ordering::Relaxed);
+    if max > 0 {
+        let mut x = PERTURB_SEED.load(Ordering::Relaxed) ^ seq.wrapping_mul(0x9E37_79B9_7F4A_7C15);
+        x ^= x >> 31;
+        x = x.wrapping_mul(0xD6E8_FEB8_6659_FD93);
+        x ^= x >> 29;
+        let micros = x % (max + 1);
+        if micros > 0 {
+            std::thread::sleep(std::time::Duration::from_micros(micros));
+        }
+    }
+    Task { kind }
+}
+
+impl Drop for Task {
+    fn drop(&mut self) {
+        push(self.kind, false);
+    }
+}
+
+/// Sets the perturbation: each task start sleeps 0..=`max_micros` µs derived from `seed`
+pub fn set_perturbation(seed: u64, max_micros: u64) {
+    PERTURB_SEED.store(seed, Ordering::Relaxed);
+    PERTURB_MAX_MICROS.store(max_micros, Ordering::Relaxed);
+}
+
+/// Takes (and clears) all events logged so far
+pub fn take_events() -> Vec<Event> {
+    let mut log = LOG.lock().unwrap_or_else(|e| e.into_inner());
+    log.threads.clear();
+    std::mem::take(&mut log.events)
+}
